@@ -218,6 +218,29 @@ def pat_variant(p):
     return None
 
 
+def pat_variants_all(p):
+    """All variant/struct paths mentioned anywhere inside pattern p (e.g. `Some(GlobalEntry::Type(_))` -> both)."""
+    res = []
+    if not isinstance(p, dict):
+        return res
+    v = pat_variant(p)
+    if v:
+        res.append(v)
+    p = pat_strip(p)
+    k = p.get("k")
+    if k == "Struct":
+        for f in p["fields"]:
+            res += pat_variants_all(f["pat"])
+    elif k in ("TupleStruct", "Or", "Tuple"):
+        for q in p["pats"]:
+            res += pat_variants_all(q)
+    elif k in ("Guard",):
+        res += pat_variants_all(p["pat"])
+    elif k == "Binding" and p.get("sub"):
+        res += pat_variants_all(p["sub"])
+    return res
+
+
 def pat_alternatives(p):
     p = pat_strip(p)
     if p.get("k") == "Or":
@@ -305,18 +328,19 @@ def local_callee_body(prog, call):
     return prog.body(p)
 
 
-def nodes_deep(prog, root, depth=2, _seen=None):
+def nodes_deep(prog, root, depth=2, _seen=None, crate=None):
     """Like nodes(root) but also descends into the bodies of local functions that are called (helpers extracted by a
-    refactoring are seen as if they were still inline)."""
+    refactoring are seen as if they were still inline).  crate: only descend into bodies of that crate (type indices
+    are per crate)."""
     if _seen is None:
         _seen = set()
     for n in nodes(root):
         yield n
         if depth > 0 and n.get("k") in ("Call", "MethodCall"):
             b = local_callee_body(prog, n)
-            if b is not None and b["p"] not in _seen:
+            if b is not None and b["p"] not in _seen and (crate is None or b["_crate"] is crate):
                 _seen.add(b["p"])
-                for x in nodes_deep(prog, b["body"], depth - 1, _seen):
+                for x in nodes_deep(prog, b["body"], depth - 1, _seen, crate):
                     yield x
 
 
